@@ -6,7 +6,8 @@ models never look at library objects:
   track       = {"name", "instrument": None | {"kind": "midi", "nr": n, "name": s} | {"kind": "plain"},
                  "bars": [bar]}
   bar         = {"key", "meter": [n, d], "entries": [entry]}
-  entry       = {"v": [base, dots, r1, r2], "notes": None | [[name, octave, channel, velocity], ...]}
+  entry       = {"v": [base, dots, r1, r2], "notes": None | [[name, octave, channel, velocity], ...][, "bpm": n]}
+                ("bpm": the container carries a tempo change, as the MIDI writer and the sequencer honour it)
 """
 from fractions import Fraction
 
@@ -68,7 +69,7 @@ def random_notes(rng, size=None, lo=0, hi=115, channel=None, velocity=(1, 127), 
     return out
 
 
-def random_bar(rng, key, meter, values, rest_p=0.3, fill=None, **kw):
+def random_bar(rng, key, meter, values, rest_p=0.3, fill=None, tempo_p=0.0, **kw):
     entries = []
     L = Fraction(meter[0], meter[1])
     total = Fraction(0)
@@ -84,6 +85,8 @@ def random_bar(rng, key, meter, values, rest_p=0.3, fill=None, **kw):
         if notes is None and rng.random() < 0.25:
             notes = []          # a rest given as an empty container (bar + [], place_notes(NoteContainer(), v))
         entries.append({"v": [v.base, v.dots, v.r1, v.r2], "notes": notes})
+        if notes and tempo_p and rng.random() < tempo_p:
+            entries[-1]["bpm"] = rng.choice([40, 60, 90, 119, 121, 180, 240, rng.randint(30, 400)])
         total += v.length
     return {"key": key, "meter": list(meter), "entries": entries}
 
@@ -112,7 +115,7 @@ def random_track(rng, values, nbars=None, one_key_meter=True, instrument=None, m
                 dv = rng.randint(vel[0], vel[1])
                 dc = rng.randint(0, 15)
                 notes = [[n[0], n[1], dc if how in ("channel", "both") else n[2], dv if how in ("velocity", "both") else n[3]] for n in notes]
-            entries.append({"v": list(e["v"]), "notes": notes})
+            entries.append(dict(e, v=list(e["v"]), notes=notes))
         again = {"key": bars[i]["key"], "meter": list(bars[i]["meter"]), "entries": entries}
         bars.insert(rng.randint(i + 1, len(bars)), again)
     if len(bars) >= 2 and rng.random() < 0.2:
@@ -161,7 +164,10 @@ def build_bar(bspec):
     b = Bar(bspec["key"], tuple(bspec["meter"]))
     for e in bspec["entries"]:
         v = val_of(e["v"])
-        ok = b.place_notes(None if e["notes"] is None else build_notes(e["notes"]), v.value)
+        content = None if e["notes"] is None else build_notes(e["notes"])
+        if e.get("bpm") and content is not None:
+            content.bpm = e["bpm"]
+        ok = b.place_notes(content, v.value)
         if not ok:
             raise RuntimeError("workload bar does not accept %r (model says it fits)" % (e,))
     return b
@@ -210,6 +216,7 @@ def change_track(rng, tspec, tobj, new_bar, new_notes):
             notes = new_notes()
             tobj.bars[k][i] = build_notes(notes)
             tspec["bars"][k]["entries"][i] = dict(tspec["bars"][k]["entries"][i], notes=notes)
+            tspec["bars"][k]["entries"][i].pop("bpm", None)        # the new container carries no tempo
         elif how == "remove-last":
             if not tspec["bars"] or not tspec["bars"][-1]["entries"] or any(b.get("reuse_of") is not None for b in tspec["bars"]):
                 continue
@@ -241,7 +248,7 @@ def track_timeline(tspec, repeat=0, keep_trailing_rest=True):
     -> {'events': [(tick, 'on'|'off', ch, key, vel)], 'bars': [(start_tick, end_tick, key, meter,
         first_on_tick | None, last_off_tick | None)], 'end': tick, 'first_note': (tick, ch) | None}"""
     t = 0
-    events, bars = [], []
+    events, bars, tempos = [], [], []
     first_notes = []
     for r in range(repeat + 1):
         first = None
@@ -251,6 +258,8 @@ def track_timeline(tspec, repeat=0, keep_trailing_rest=True):
             for e in b["entries"]:
                 tk = ticks_of(val_of(e["v"]))
                 if e["notes"]:
+                    if e.get("bpm"):
+                        tempos.append((t, e["bpm"]))
                     for n in e["notes"]:
                         events.append((t, "on", n[2], pitch_of(n) + 12, n[3]))
                         events.append((t + tk, "off", n[2], pitch_of(n) + 12, n[3]))
@@ -262,7 +271,7 @@ def track_timeline(tspec, repeat=0, keep_trailing_rest=True):
                 t += tk
             bars.append((start, t, b["key"], tuple(b["meter"]), f_on, l_off))
         first_notes.append(first)
-    return {"events": events, "bars": bars, "end": t, "first_notes": first_notes}
+    return {"events": events, "bars": bars, "end": t, "first_notes": first_notes, "tempos": tempos}
 
 
 def key_signature_bytes(key):
